@@ -284,9 +284,62 @@ async def sieve_scenario(config, seq):
     return errors, ('sieve', config, tuple(sig))
 
 
+async def maildir_secret_scenario(history):
+    """the stored secret of a user on the maildir backend (users / passwords files) through its whole life: ('set', pw|None)
+    stores a new secret or removes it (the record stays, without a password), ('delete',) removes the user, ('try', pw) is a
+    LOGIN on a fresh connection.  Oracle, from the statement: a LOGIN succeeds only with the password whose hash is the
+    user's stored secret NOW."""
+    from pymap.backend.maildir import Identity
+    from pymap.user import Passwords, UserMetadata
+    from .imapdrv import MaildirWorld
+    errors, sig = [], []
+    w = await MaildirWorld(layout='++').start(users=(('alice', 'apass'), ('bob', 'bpass')))
+    try:
+        current = 'apass'
+        exists = True
+        n = 0
+        for step, op in enumerate(history):
+            where = f'step {step} {op}'
+            ident = Identity(w.config, w.backend.login.tokens, 'alice', None, {'admin'})
+            if op[0] == 'set':
+                hashed = None if op[1] is None else await Passwords(w.config).hash_password(op[1])
+                await ident.set(UserMetadata(w.config, 'alice', password=hashed, params={'mailbox_path': 'alice'}))
+                current, exists = op[1], True
+            elif op[0] == 'delete':
+                await ident.delete()
+                current, exists = None, False
+            else:
+                n += 1
+                c = await w.client(f't{n}', login=False)
+                r = await c.cmd(b'LOGIN alice "' + op[1].encode() + b'"')
+                ok = bool(r['answered'] and r['tagged'].split()[1] == b'OK')
+                want = exists and current is not None and op[1] == current
+                sig.append((op[0], ok))
+                if ok and not want:
+                    errors.append(f'{where}: LOGIN alice {op[1]!r} answered OK although the stored secret of alice is now '
+                                  f'{"that of " + repr(current) if current is not None else "none (removed)" if exists else "gone with the user"}')
+                elif want and not ok:
+                    errors.append(f'{where}: LOGIN alice {op[1]!r} with the stored secret is refused: {r["tagged"]!r}')
+    finally:
+        await w.close()
+        w.cleanup()
+    return errors, tuple(sig)
+
+
+SECRET_HISTORIES = [
+    (('try', 'apass'), ('set', None), ('try', 'apass'), ('try', ''), ('try', '*'), ('try', 'None')),
+    (('set', 'second'), ('try', 'apass'), ('try', 'second'), ('set', None), ('try', 'second'), ('try', 'apass')),
+    (('set', None), ('set', 'third'), ('try', 'third'), ('try', 'apass'), ('try', '*')),
+    (('delete',), ('try', 'apass'), ('try', ''), ('set', 'again'), ('try', 'apass'), ('try', 'again')),
+    (('set', 'bpass'), ('try', 'bpass'), ('set', None), ('try', 'bpass')),
+]
+
+
 def _worker(args):
     proto, config, seq = args
     try:
+        if proto == 'maildir-secret':
+            return args, *run(maildir_secret_scenario(seq))
         if proto == 'imap':
             return args, *run(imap_scenario(config, seq))
         return args, *run(sieve_scenario(config, seq))
@@ -329,6 +382,7 @@ def bounded_auth(label):
                          if a[0] != 'unknownmech' else (a,)))
         for _ in range(60 if tier == 'quick' else 600):
             items.append(('sieve', 'plain-ok', tuple(rnd.choice(satts) for _ in range(2))))
+        items += [('maildir-secret', 'maildir', h) for h in SECRET_HISTORIES]
         res.exhaustive = False
         with mp.get_context('fork').Pool(16) as pool:
             for args, errs, sig in pool.imap_unordered(_worker, items, chunksize=4):
